@@ -135,7 +135,9 @@ func c19Gen(c *vfCtx, emit func(c19Case)) {
 		}
 	}
 	// 1..3 calls per test, 1..3 executions, then update with shorter / longer values
-	short := []string{"", "a", "a\r\n", "---", "\xff", "go:struct", strings.Repeat("long ", 40), "a\nb", "a\n", "a\nb\n\nc"}
+	short := []string{"", "a", "a\r\n", "---", "\xff", "go:struct", strings.Repeat("long ", 40), "a\nb", "a\n", "a\nb\n\nc",
+		// tabs, vertical tabs and form feeds: the documented formatter aligns / rewrites them, for a string like for any other value
+		"name\tvalue\nlonger name\tv", "a\vb\fc\n\tindented"}
 	for _, n := range names {
 		for _, execs := range []int{1, 2, 3} {
 			for i, v1 := range short {
@@ -256,7 +258,14 @@ func c19Run(c *vfCtx, cs c19Case) {
 			cfg.MatchStandaloneJSON(t, json.RawMessage(`{"a":1,}`))
 			return
 		}
-		if cs.API == "sjson" {
+		if _, isGo := c19GoVal(v); cs.API == "sjson" && !isGo && len(v)%2 == 0 {
+			// every other document is handed in as []byte: the caller's bytes are as they were afterwards
+			in := []byte(v)
+			cfg.MatchStandaloneJSON(t, in)
+			if string(in) != v {
+				c.violation("", fmt.Sprintf("MatchStandaloneJSON modified the []byte it was given: %q -> %q", vfClip(v), vfClip(string(in))), cs)
+			}
+		} else if cs.API == "sjson" {
 			cfg.MatchStandaloneJSON(t, c19Input(v))
 		} else {
 			cfg.MatchStandaloneSnapshot(t, c19Input(v))
